@@ -379,7 +379,7 @@ func (l *lexer) scanName() token {
 		l.ignore()
 	}
 
-	for {
+	for first := !isVar; ; first = false {
 		ch := l.nextRune()
 		if ch == eof {
 			break
@@ -391,8 +391,12 @@ func (l *lexer) scanName() token {
 			break
 		}
 
-		// ...or anything that looks like an operator.
-		if lookupSymbol1(ch) > 0 || lookupSymbol2(ch) != nil {
+		// ...or anything that looks like an operator. The
+		// exception is a name's first character: the caller
+		// has established that it doesn't begin an operator
+		// (e.g. a '!' that's not followed by '='), and it
+		// must be consumed so that the lexer makes progress.
+		if !first && (lookupSymbol1(ch) > 0 || lookupSymbol2(ch) != nil) {
 			l.backup()
 			break
 		}
